@@ -38,6 +38,13 @@ PROPS = {
         "kani": [("nthash", None)],
         "bounded": [],
     },
+    "C05": {
+        "level": "proof",
+        "verus": [("idxcheck", [None])],
+        "functions": ["IdxCheck::new", "IdxCheck::iter", "Iterator::next"],
+        "kani": [("u8base", None)],
+        "bounded": [],
+    },
     "C15": {
         "level": "proof",
         "verus": [],
